@@ -22,7 +22,7 @@ EXPLANATION = (
     "to the projection clamped to the bounding box of the segment (polynomial identities on every return path) and never divides by "
     "the chord length without a zero test.")
 ASSUMPTIONS = ["positive tolerance", "(G) is a bounded case analysis: one representative polyline per configuration class, not all geometries"]
-TECHNIQUE = "abstract interpretation of both algorithms on configuration-class representatives with a point-segment distance computed by the checker (F3/F6), possibly-zero divisor rule and polynomial identities (F2)"
+TECHNIQUE = "abstract interpretation of both algorithms on configuration-class representatives (positions are the repository's ENUCoords; two classes at sub-millimetre scale) with a point-segment distance computed by the checker (F3/F6), possibly-zero divisor rule and polynomial identities (F2)"
 
 
 def vr(v):
